@@ -1,4 +1,4 @@
-import Ledger.Driver.Core
+import Ledger.Driver.Api
 
 /-! `ldriver_api`: correspondence driver for the Api area (core-only). -/
-def main : IO Unit := Ledger.Driver.runDriver []
+def main : IO Unit := Ledger.Driver.runDriver Ledger.Driver.Api.handlers
